@@ -151,8 +151,18 @@ def _h_problem(rng, want_dirichlet=None):
     from verif import hgen
     desc = hgen.random_desc(rng, dims=(1, 2, 2), pmax=3, n0max=4, max_steps=3, max_levels=4,
                             bd_choices=('empty', 'one', 'all') if want_dirichlet is None else want_dirichlet)
-    hs, hist = hgen.build(desc)
-    desc = dict(desc, history=hist)
+    # adaptive-loop style: the space is queried between refinement steps (what a solve-estimate-mark-refine loop does), so that
+    # anything cached by the queries has to be invalidated by the following refine()
+    queried = []
+    qrng = np.random.default_rng(int(desc['hseed']) % (2 ** 31))
+    def on_step(h, marks):
+        if qrng.random() < 0.6:
+            st = ['new', 'trunc', 'func_supp', 'cell_supp'][int(qrng.integers(0, 4))]
+            try: h.indices_to_smooth(st); queried.append(st)
+            except Exception: queried.append('raised:' + st)
+        else: queried.append(None)
+    hs, hist = hgen.build(desc, on_step=on_step)
+    desc = dict(desc, history=hist, queries_between_steps=queried)
     L = hs.numlevels
     kvs = hs.knotvectors(L - 1)
     Af = assemble.stiffness(kvs) + assemble.mass(kvs)
@@ -191,9 +201,9 @@ def _mg(rec, case):
     n = hs.numdofs
     rec.case(c, nontrivial=hs.numlevels >= 2)
     sig = {'route': 'local_mg_step', 'strategy': strategy, 'smoother': smoother, 'truncate': bool(hs.truncate)}
-    ok, Ps = guarded(rec, c, dict(sig, stage='prolongators'), hs.virtual_hierarchy_prolongators)
-    if not ok: return
     ok, inds = guarded(rec, c, dict(sig, stage='indices_to_smooth'), hs.indices_to_smooth, strategy)
+    if not ok: return
+    ok, Ps = guarded(rec, c, dict(sig, stage='prolongators'), hs.virtual_hierarchy_prolongators)
     if not ok: return
     refs = _ref_dirichlet_and_new(hs)
     rec.count('oracle:smoothing_sets')
